@@ -162,7 +162,7 @@ def _c08_fresh_with_thini(sc1, thini):
 def c08(ctx):
     """multi-season run (off-season skipped) vs fresh single-season runs"""
     seed, tier = ctx["seed"], ctx["tier"]
-    n = 10 if tier == "quick" else 60
+    n = 11 if tier == "quick" else 60
     rng = np.random.default_rng(seed + 8)
     viols, evals, nontriv, tried = [], 0, 0, 0
     methods = [0, 1, 2, 3, 4, 5]
@@ -174,6 +174,11 @@ def c08(ctx):
         # rainfed on a dry seed bed: germination is delayed on the planting day of every season (what the first
         # day after planting does then differs from what the first day after germination does)
         dict(crop="Wheat", station="tunis_climate.txt", irr_method=0, iwc=DRY, soil="SandyLoam", soil_kind="builtin", dz=None,
+             n_seasons=3, off_season=False, start_mode="at", gw=False, planting="10/15"),
+        # ... the same for a thermal-time crop (which keeps a calendar-day delay counter as well), from a measured
+        # initial profile whose values are not round numbers
+        dict(crop="WheatGDD", station="tunis_climate.txt", irr_method=0, soil="Loam", soil_kind="builtin", dz=None,
+             iwc={"wc_type": "Num", "method": "Depth", "depth_layer": [0.15, 0.55, 1.3], "value": [0.1213, 0.1877, 0.2461]},
              n_seasons=3, off_season=False, start_mode="at", gw=False, planting="10/15"),
         dict(crop="Wheat", station="tunis_climate.txt", irr_method=4, iwc=WP, soil="Loam", soil_kind="builtin", n_seasons=4, off_season=False, start_mode="at", gw=False),
         dict(crop="Wheat", station="tunis_climate.txt", irr_method=2, iwc=FC, soil="SandyLoam", soil_kind="builtin", n_seasons=3, off_season=False, start_mode="at", gw=False),
@@ -477,6 +482,37 @@ def run_in_subprocess(scs, hashseed):
     return json.loads(p.stdout.decode().strip().split("\n")[-1])
 
 
+def all_kinds_scenarios():
+    """two configurations with a non-default object of EVERY user-facing kind (low bunds that monsoon storms overtop,
+    mulches, a curve-number shift, fallow management, a dated schedule, moving water tables inside a profile that is
+    deepened for the crop, percentage / numeric initial water, CO2 series and constant, numpy-array inputs): a unit
+    conversion or normalisation done in place on the caller's object compounds on its second use"""
+    shared = []
+    shared.append(dict(id="c10-shared-all-kinds-paddy", start="2000/07/01", end="2001/12/30",
+                       weather={"kind": "file", "name": "hyderabad_climate.txt"}, soil={"type": "Paddy"},
+                       crop={"name": "PaddyRice", "planting": "08/01", "overrides": {}},
+                       irr={"method": 3, "schedule": [["2000-08-05", 40.0], ["2000-09-10", 25.0], ["2001-08-20", 30.0]],
+                            "AppEff": 85.0, "WetSurf": 60.0, "MaxIrr": 50.0},
+                       fm=dict(bunds=True, z_bund=0.04, bund_water=20.0, mulches=True, mulch_pct=50.0, f_mulch=0.5),
+                       ffm=dict(bunds=True, z_bund=0.03, bund_water=0.0, curve_number_adj=True, curve_number_adj_pct=10.0),
+                       gw={"water_table": "Y", "method": "Variable", "dates": ["2000-07-01", "2001-01-01", "2001-12-30"],
+                           "values": [1.6, 2.4, 1.8]},
+                       iwc={"wc_type": "Pct", "method": "Layer", "depth_layer": [1, 2], "value": [60.0, 80.0]},
+                       co2={"series": [[1999, 368.0], [2000, 370.0], [2001, 372.0], [2002, 374.0]]}, off_season=True))
+    shared.append(dict(id="c10-shared-all-kinds-maize", start="1990/04/01", end="1991/12/30",
+                       weather={"kind": "file", "name": "champion_climate.txt"},
+                       soil={"type": "custom", "layers": [[0.4, 0.10, 0.22, 0.41, 1200, 100], [1.6, 0.23, 0.39, 0.5, 125, 100]],
+                             "dz": [0.1] * 12, "kwargs": {"cn": 72.0, "rew": 9.0}},
+                       crop={"name": "Maize", "planting": "05/01", "harvest": "10/30", "overrides": {"CCx": 0.9}},
+                       irr={"method": 1, "SMT": [70.0, 60.0, 50.0, 40.0], "MaxIrrSeason": 300.0},
+                       fm=dict(curve_number_adj=True, curve_number_adj_pct=-25.0, mulches=True, mulch_pct=50.0, f_mulch=0.5),
+                       ffm=dict(bunds=True, z_bund=0.03, bund_water=0.0, mulches=True, mulch_pct=80.0, f_mulch=0.6),
+                       gw={"water_table": "Y", "method": "Constant", "dates": ["1990-04-01", "1991-03-01"], "values": [2.2, 1.9]},
+                       iwc={"wc_type": "Num", "method": "Depth", "depth_layer": [0.3, 1.0, 2.0], "value": [0.15, 0.30, 0.35]},
+                       co2={"constant": True, "current": 410.0}, arrays=True, off_season=True))
+    return shared
+
+
 def c10(ctx):
     seed, tier = ctx["seed"], ctx["tier"]
     n = 6 if tier == "quick" else 24
@@ -540,6 +576,25 @@ def c10(ctx):
                 viols.append(V("C10", "interleaving", sc, "interleaved stepping of two instances changes the result"))
     except Exception as e:  # noqa: BLE001
         viols.append(V("C10", "interleaving-raises", a, "interleaved stepping raises", error=(type(e).__name__, str(e)[:200])))
+    # (c') ... and with the two instances built from the SAME user objects: A is paused inside its second season, B is
+    # built from the same objects, initialised and run to the end, then A is continued
+    try:
+        objs_ab = S.build_objects(b)
+        ma = AquaCropModel(**objs_ab)
+        ma.run_model(num_steps=400, initialize_model=True)
+        mb = AquaCropModel(**objs_ab)
+        mb.run_model(till_termination=True)
+        ma.run_model(till_termination=True, initialize_model=False)
+        for who, m in (("paused", ma), ("built-meanwhile", mb)):
+            r = Res(); r.error = None
+            r.flux, r.storage, r.growth = rec.tables_np(m); r.summary = rec.summary_rows(m)
+            evals += 1
+            if digest(r) != alone[b["id"]]:
+                viols.append(V("C10", "interleaving-shared-objects", b, "a model built from the same user objects while another is paused changes a result",
+                               which=who))
+    except Exception as e:  # noqa: BLE001
+        viols.append(V("C10", "interleaving-shared-objects-raises", b, "interleaved use of two instances built from the same objects raises",
+                       error=(type(e).__name__, str(e)[:200])))
     # (d) two models built from the SAME user objects: B built and run after A has run must give what B gives when
     # built from freshly made objects (days before the first planting date are simulated; crops whose aeration /
     # rooting values differ from the pre-season stand-in's)
@@ -552,28 +607,7 @@ def c10(ctx):
     # ... and with a non-default object of EVERY user-facing kind (low bunds that monsoon storms overtop, mulches,
     # fallow management, a dated schedule, a moving water table, percentage initial water, a CO2 series): a unit
     # conversion or normalisation done in place on the caller's object compounds on its second use
-    shared.append(dict(id="c10-shared-all-kinds-paddy", start="2000/07/01", end="2001/12/30",
-                       weather={"kind": "file", "name": "hyderabad_climate.txt"}, soil={"type": "Paddy"},
-                       crop={"name": "PaddyRice", "planting": "08/01", "overrides": {}},
-                       irr={"method": 3, "schedule": [["2000-08-05", 40.0], ["2000-09-10", 25.0], ["2001-08-20", 30.0]],
-                            "AppEff": 85.0, "WetSurf": 60.0, "MaxIrr": 50.0},
-                       fm=dict(bunds=True, z_bund=0.04, bund_water=20.0, mulches=True, mulch_pct=50.0, f_mulch=0.5),
-                       ffm=dict(bunds=True, z_bund=0.03, bund_water=0.0, curve_number_adj=True, curve_number_adj_pct=10.0),
-                       gw={"water_table": "Y", "method": "Variable", "dates": ["2000-07-01", "2001-01-01", "2001-12-30"],
-                           "values": [1.6, 2.4, 1.8]},
-                       iwc={"wc_type": "Pct", "method": "Layer", "depth_layer": [1, 2], "value": [60.0, 80.0]},
-                       co2={"series": [[1999, 368.0], [2000, 370.0], [2001, 372.0], [2002, 374.0]]}, off_season=True))
-    shared.append(dict(id="c10-shared-all-kinds-maize", start="1990/04/01", end="1991/12/30",
-                       weather={"kind": "file", "name": "champion_climate.txt"},
-                       soil={"type": "custom", "layers": [[0.4, 0.10, 0.22, 0.41, 1200, 100], [1.6, 0.23, 0.39, 0.5, 125, 100]],
-                             "dz": [0.1] * 12, "kwargs": {"cn": 72.0, "rew": 9.0}},
-                       crop={"name": "Maize", "planting": "05/01", "harvest": "10/30", "overrides": {"CCx": 0.9}},
-                       irr={"method": 1, "SMT": [70.0, 60.0, 50.0, 40.0], "MaxIrrSeason": 300.0},
-                       fm=dict(bunds=True, z_bund=0.02, bund_water=0.0, sr_inhb=False),
-                       ffm=dict(mulches=True, mulch_pct=80.0, f_mulch=0.6),
-                       gw={"water_table": "Y", "method": "Constant", "dates": ["1990-04-01", "1991-03-01"], "values": [2.2, 1.9]},
-                       iwc={"wc_type": "Num", "method": "Depth", "depth_layer": [0.3, 1.0, 2.0], "value": [0.15, 0.30, 0.35]},
-                       co2={"constant": True, "current": 410.0}, arrays=True, off_season=True))
+    shared += all_kinds_scenarios()
     for sc_s in shared:
         try:
             fresh_b = run_full(sc_s)
@@ -687,7 +721,7 @@ def c11(ctx):
              iwc={"wc_type": "Num", "method": "Depth", "depth_layer": [0.3, 1.0], "value": [0.15, 0.2]},
              irr={"method": 0}, arrays=True, off_season=False),
     ]
-    scs = explicit + scs
+    scs = [dict(x, id="c11-" + x["id"][4:]) for x in all_kinds_scenarios()] + explicit + scs
     for sc in scs:
         objs = S.build_objects(sc)
         r1 = run_full(objects=objs)
@@ -810,6 +844,15 @@ def c12(ctx):
     scs.insert(0, dict(id=12901, start="2000/06/20", end="2002/12/30", weather={"kind": "file", "name": "hyderabad_climate.txt"},
                        soil={"type": "Paddy"}, crop={"name": "PaddyRice", "planting": "07/01", "overrides": {}},
                        fm={"bunds": True, "z_bund": 0.05, "bund_water": 80.0}, irr={"method": 0}, off_season=False))
+    # settings that are configured but switched off / only partly used (a percentage without its flag, for the season
+    # and for the fallow period), under the constant-depth strategy
+    scs.insert(0, dict(id=12903, start="1982/04/01", end="1983/11/30", weather={"kind": "file", "name": "champion_climate.txt"},
+                       soil={"type": "ClayLoam"}, crop={"name": "Maize", "planting": "05/01", "overrides": {}},
+                       fm={"curve_number_adj": False, "curve_number_adj_pct": -15.0, "mulches": False, "mulch_pct": 60.0, "f_mulch": 0.4,
+                           "bunds": False, "z_bund": 0.1, "bund_water": 30.0},
+                       ffm={"curve_number_adj": False, "curve_number_adj_pct": 10.0},
+                       irr={"method": 5, "depth": 4.0, "MaxIrr": 25.0, "AppEff": 80.0, "SMT": [55.0, 65.0, 45.0, 35.0], "NetIrrSMT": 70.0},
+                       off_season=True))
     # a user-built weather table (not passed through `prepare_weather`): days with a reference ET below 0.1 mm
     for i, regime in enumerate(["mild", "cold"]):
         scs.insert(0, S.gen_scenario(rng, 12010 + i, dict(crop=["Barley", "Wheat"][i], station="brussels_climate.txt", synth=True, regime=regime,
@@ -1073,6 +1116,11 @@ def c15(ctx):
         trans.append(("date-index", w))
         w = w0.copy(); w.index = pd.Index([f"r{i}" for i in range(len(w))])
         trans.append(("string-index", w))
+        # a DatetimeIndex that is not the Date column (records stamped at the end of the day they describe)
+        w = w0.copy(); w.index = pd.DatetimeIndex(w.Date.values) + pd.Timedelta(days=1)
+        trans.append(("shifted-datetime-index", w))
+        w = w0.copy(); w.index = pd.DatetimeIndex(w.Date.values); w.index.name = "Date"
+        trans.append(("date-index-named-date", w))
         start, end = pd.Timestamp(sc["start"]), pd.Timestamp(sc["end"])
         # a table concatenated from several files without renumbering: row labels repeat (rows outside the window carry
         # the labels of rows inside it)
@@ -1437,6 +1485,21 @@ def c16_scenarios(seed, tier):
         sc["co2"] = None if c < 2 else (dict(constant=True, current=float(rng.choice([0, 300, 450, 700, 2100]))) if c < 4 else dict(constant=False))
         sc["c16_leap_day"] = leap
         out.append(sc)
+    # calendar boundaries of the derived latest harvest date: planting dates from which maturity + 30 days falls on or
+    # next to 29 February of a leap year
+    cal = [c for c in crops if int(S.crop_params[c].get("CalendarType", 1)) == 1 and float(S.crop_params[c].get("MaturityCD", -9)) > 0]
+    for j, crop in enumerate(cal if tier != "quick" else cal[::3]):
+        for off in ((0,) if tier == "quick" else (-1, 0, 1)):
+            leap = pd.Timestamp("2000-02-29") if j % 2 == 0 else pd.Timestamp("2004-02-29")
+            pl_ = leap + pd.Timedelta(days=off) - pd.Timedelta(days=int(S.crop_params[crop]["MaturityCD"]) + 30)
+            if (pl_.month, pl_.day) == (2, 29):
+                continue
+            st_, en_ = pl_ - pd.Timedelta(days=20), pl_ + pd.Timedelta(days=600)
+            out.append(dict(id=f"c16-leap-harvest-{crop}-{off}", start=st_.strftime("%Y/%m/%d"), end=en_.strftime("%Y/%m/%d"),
+                            weather=dict(kind="synth", seed=1000 + j, regime="mild", start=(st_ - pd.Timedelta(days=5)).strftime("%Y-%m-%d"),
+                                         end=(en_ + pd.Timedelta(days=5)).strftime("%Y-%m-%d"), south=False),
+                            soil={"type": "Loam"}, crop={"name": crop, "planting": pl_.strftime("%m/%d"), "overrides": {}}, irr=None,
+                            off_season=bool(j % 2), c16_leap_day=False, fm=None, ffm=None, gw=None, co2=None))
     # long records of thermal-time crops: every year of a station's record is some season's weather, the cool years
     # (a later season much slower than the first, on which the harvest-date template is based) included
     long_runs = [("MaizeChampionGDD", "champion_climate.txt", "1982/05/01", "2018/10/30", "05/01"),
@@ -1556,18 +1619,36 @@ def c17(ctx):
         fsh = np.array([c.fshape_w1, c.fshape_w2, c.fshape_w3, c.fshape_w4], dtype=float)
         taw = 150.0
         dg = np.array(sorted(set(dgrid.tolist()) | set(float(x) for x in p_up) | set(float(x) for x in p_lo)))
-        for et0 in et0s:
-            for tes in (0.0, 3.0):
-                prev = None
-                for d in dg:
-                    ks = np.array(water_stress(p_up, p_lo, c.ETadj, c.beta, fsh, tes, d * taw, taw, float(et0), True), dtype=float)
-                    evals += 1
-                    if np.any(ks < -eps) or np.any(ks > 1 + eps) or not np.all(np.isfinite(ks)):
-                        viols.append(V("C17", "ks-range", pseudo, "water-stress coefficient outside [0,1]", crop=cname, et0=float(et0), drel=float(d), ks=ks.tolist()))
-                    if prev is not None and np.any(ks > prev + 1e-9):
-                        viols.append(V("C17", "ks-monotone", pseudo, "water-stress coefficient increases with depletion", crop=cname, et0=float(et0), drel=float(d), ks=ks.tolist(), prev=prev.tolist()))
-                    prev = ks
-                nontriv += 1
+        p_up0, p_lo0, fsh0 = p_up.copy(), p_lo.copy(), fsh.copy()
+        for etadj in sorted({int(c.ETadj), 0, 1}):
+            for et0 in (et0s if etadj == int(c.ETadj) else et0s[1::2]):
+                for tes in (0.0, 3.0):
+                    prev = None
+                    seen = {}
+                    for d in dg:
+                        ks = np.array(water_stress(p_up, p_lo, etadj, c.beta, fsh, tes, d * taw, taw, float(et0), True), dtype=float)
+                        evals += 1
+                        seen[float(d)] = ks
+                        if np.any(ks < -eps) or np.any(ks > 1 + eps) or not np.all(np.isfinite(ks)):
+                            viols.append(V("C17", "ks-range", pseudo, "water-stress coefficient outside [0,1]", crop=cname, et0=float(et0), drel=float(d), ks=ks.tolist(), ETadj=etadj))
+                        if prev is not None and np.any(ks > prev + 1e-9):
+                            viols.append(V("C17", "ks-monotone", pseudo, "water-stress coefficient increases with depletion", crop=cname, et0=float(et0), drel=float(d), ks=ks.tolist(), prev=prev.tolist(), ETadj=etadj))
+                        prev = ks
+                    # the coefficients are a function of the arguments: the same lattice walked downwards gives the same
+                    # values (so the order of depletion levels a run happens to visit is immaterial), and the crop's
+                    # threshold arrays are not altered by the calls
+                    for d in dg[::-1][:: (3 if tier == "quick" else 1)]:
+                        ks = np.array(water_stress(p_up, p_lo, etadj, c.beta, fsh, tes, d * taw, taw, float(et0), True), dtype=float)
+                        evals += 1
+                        if not np.array_equal(ks, seen[float(d)]):
+                            viols.append(V("C17", "ks-not-a-function", pseudo, "water-stress coefficients differ between two calls with the same arguments (so they are not monotone in depletion over a run)",
+                                           crop=cname, et0=float(et0), drel=float(d), first=seen[float(d)].tolist(), again=ks.tolist(), ETadj=etadj))
+                            break
+                    if not (np.array_equal(p_up, p_up0) and np.array_equal(p_lo, p_lo0) and np.array_equal(fsh, fsh0)):
+                        viols.append(V("C17", "ks-arguments-altered", pseudo, "the water-stress function alters the crop's threshold arrays (later calls see other thresholds)",
+                                       crop=cname, ETadj=etadj, p_up=p_up.tolist(), p_up_before=p_up0.tolist()))
+                        p_up, p_lo, fsh = p_up0.copy(), p_lo0.copy(), fsh0.copy()
+                    nontriv += 1
         prevH = prevC = None
         # the crop's own thresholds and points strictly between them belong to the lattice
         extra = set()
